@@ -158,6 +158,39 @@ func (m *Model) GStrict(x int, extra *Ctor) *Graph {
 	return g
 }
 
+// GScope is the graph a single scope's own cycle detection can see: nodes
+// are the constructors visible from x, and a constructor depends on *every*
+// visible provider of a key it consumes (not only the nearest one — which of
+// them run-time resolution picks depends on the scope the consumer resolves
+// from) and on every visible feeder of a group. extra as in GPerm.
+func (m *Model) GScope(x int, extra *Ctor) *Graph {
+	mm := m
+	if extra != nil {
+		mm = m.Clone()
+		mm.Ctors = append(mm.Ctors, extra)
+	}
+	var nodes []*Ctor
+	idx := map[*Ctor]int{}
+	for _, c := range mm.Ctors {
+		if mm.IsAncestorOrSelf(c.Home, x) {
+			idx[c] = len(nodes)
+			nodes = append(nodes, c)
+		}
+	}
+	g := &Graph{N: len(nodes), Adj: make([][]int, len(nodes))}
+	for i, c := range nodes {
+		g.Names = append(g.Names, c.Inst)
+		for _, l := range c.P {
+			for _, p := range nodes {
+				if mm.providesAny(p, l.Key) {
+					g.addEdge(i, idx[p])
+				}
+			}
+		}
+	}
+	return g
+}
+
 // Scopes lists all scope indices.
 func (m *Model) Scopes() []int {
 	out := make([]int, len(m.Parent))
